@@ -38,6 +38,7 @@ def run(model, rep, tier):
              'event sets shouldStop (every other selected test still runs)')
     tsrules.no_stop_without_flag(ctx, rep, 'C04.R9')
     r11_totals_line(ctx, rep)
+    r12_nullable_results(ctx, rep)
     rep.units['cfg'] = ctx.cfg_stats
 
 
@@ -766,3 +767,21 @@ def r11_totals_line(ctx, rep, R='C04.R11'):
               'and the run-wide totals line is suppressed as if a single layer had run',
               key='hook-before-run_layer', func=fi.qualname,
               where=ctx.where(fi, g2.node(hk[0]).ast) if hk else ctx.where(fi, fi.node))
+
+
+# ---------------------------------------------------------------------------------------------
+# R12 -- "there may be no value" is believed by every user of the value
+
+def r12_nullable_results(ctx, rep, R='C04.R12'):
+    rep.rule(R, 'the runner\'s own reporting code does not fail on a value that may be absent '
+             '(contradiction rule, rules/nullable.py): the result of a package function that returns '
+             'None on one path and a value on another, and a local that is None on one branch of an '
+             'if/else and a value on the other, is subscripted / iterated / joined / used in '
+             'arithmetic or a numeric %-conversion / handed to a package function that does so only '
+             'where a dominating test (or assert) excludes None.  Such a use sits inside a result '
+             'callback or the discovery code: the TypeError would abort the run instead of being '
+             'recorded against a test')
+    from . import nullable
+    n = nullable.check(ctx, rep, R)
+    n += nullable.check_locals(ctx, rep, R)
+    rep.floor(R, n, 4, 'nullable results / locals followed to their uses')
